@@ -3,7 +3,6 @@ package props
 import (
 	"verif/sa/internal/e5path"
 	"verif/sa/internal/e8grammar"
-	"verif/sa/internal/e9pos"
 	"verif/sa/internal/load"
 	"verif/sa/internal/oblig"
 )
@@ -45,7 +44,11 @@ func runC09(r *oblig.Report) {
 	e5path.ListenerWiring(c.P, r, "R5.2")
 	// the whole document reaches the parser: a pre-pass that drops lines (or the rest of the text) lets a violation
 	// behind the cut pass unseen (shared with C03/C16)
-	r.Rule("R9.1", "instance-table", "the pre-pass hands the parser one cleaned line per input line, each a prefix of its line", 6)
-	e9pos.PrePassShape(c.P, r, "R9.1")
+	r.Rule("R9.1", "instance-table", "the pre-pass hands the parser every line of the input: split at the line breaks, one cleaned line per input line, joined again, only an inline comment cut off", 4)
+	prePassClauses(c.P, r, "R9.1", "join", "one-line-out-per-line-in", "split", "inline-comment-cut", "line-loop")
 	e5path.SyntaxErrorAlwaysRecords(c.P, r, "R5.2")
+	lfs := c.Reach(c.Entries("transformer.TransformDSLToProto", "transformer.TransformModularDSLToProto"))
+	r.Rule("R5.4d", "universe", "the declaration tables the listener holds only grow while a document is walked (no delete, no clear)", 0)
+	e5path.TablesOnlyGrow(c.P, r, "R5.4d", lfs)
+	noPackageState(c.P, r, lfs)
 }
